@@ -736,7 +736,8 @@ class NumberedFamily(C13Family):
             for dep_mode in range(4):
                 for collide in range(3):
                     for ia in range(len(INDICES)):
-                        for ib in range(len(INDICES)):
+                        # thorough: every ordered pair of indices; quick: every answer index x student index in {0, 10}
+                        for ib in (range(len(INDICES)) if tier == 'thorough' else (0, 5)):
                             for rev in ((0, 1) if samples == 1 else (0,)):
                                 yield (ia, ib, dep_mode, collide, samples, rev)
 
